@@ -39,9 +39,9 @@ ERR_JSON = json.dumps({"error": {"message": "scripted failure", "type": "invalid
 
 
 def plan(tier, seed):
-    n = 40 if tier == "quick" else 1000
+    n = 200 if tier == "quick" else 3000
     jobs = [{"k": "replies", "i": i, "seed": seed, "n": 5} for i in range(n)]
-    reps = 2 if tier == "quick" else 40
+    reps = 6 if tier == "quick" else 80
     for f in FAULTS:
         for rep in range(reps):
             jobs.append({"k": "fault", "fault": f, "rep": rep, "seed": seed})
